@@ -3,6 +3,7 @@
 package verifh
 
 import (
+	"time"
 	"context"
 	"encoding/json"
 	"errors"
@@ -20,7 +21,10 @@ func init() { suites["TRANSPORT"] = suiteTransport }
 
 // engine-side classification of one tuple: E=<unknownns|nosubject|is/0|not/0|unknown/0|<mem>/1b|<mem>/1i>
 func (ee *engineEnv) engineObs(tu *ketoapi.RelationTuple, depth int) string {
-	ctx := context.Background()
+	return ee.engineObsCtx(context.Background(), tu, depth)
+}
+
+func (ee *engineEnv) engineObsCtx(ctx context.Context, tu *ketoapi.RelationTuple, depth int) string {
 	its, err := ee.e.reg.ReadOnlyMapper().FromTuple(ctx, tu)
 	if err != nil {
 		if errors.Is(err, herodot.ErrNotFound) {
@@ -57,7 +61,7 @@ func suiteTransport(t *testing.T, cfg cfgT) {
 	out := newSink(cfg, "cases.txt")
 	defer out.close(cfg)
 	r := newRng(cfg.seed)
-	ctx := context.Background()
+	_ = context.Background
 	cases := 0
 	for cases < cfg.n {
 		hr := r.fork()
@@ -132,24 +136,33 @@ func suiteTransport(t *testing.T, cfg cfgT) {
 			}
 			var E string
 			var obs []string
+			// every evaluation of this case runs under one deadline: the cost of a check depends on the goroutine schedule (an
+			// expensive sibling is cancelled only if a cheap one answers first), so a probe cannot promise that the next
+			// evaluation is cheap too; a case that runs into the deadline is dropped, not reported (see costBudget)
+			var tctx context.Context
+			var tcancel context.CancelFunc
+			tslow := false
 			askSingle := func() {
-			E = ee.engineObs(q, depth)
+			tctx, tcancel = context.WithTimeout(context.Background(), 10*time.Second)
+			defer func() { tslow = tctx.Err() == context.DeadlineExceeded; tcancel() }()
+			ctx := tctx
+			E = ee.engineObsCtx(ctx, q, depth)
 			obs = nil
 			dq := fmt.Sprintf("max-depth=%d", depth)
 			body, _ := json.Marshal(q)
 			hasSubject := q.SubjectID != nil || q.SubjectSet != nil
 			if hasSubject {
 				qs := q.ToURLQuery().Encode() + "&" + dq
-				code, b := rest(ee.e.read, "GET", "/relation-tuples/check?"+qs, nil)
+				code, b := restCtx(ctx, ee.e.read, "GET", "/relation-tuples/check?"+qs, nil)
 				obs = append(obs, fmt.Sprintf("G1=%d/%s", code, allowedFromBody(b)))
-				code, b = rest(ee.e.read, "GET", "/relation-tuples/check/openapi?"+qs, nil)
+				code, b = restCtx(ctx, ee.e.read, "GET", "/relation-tuples/check/openapi?"+qs, nil)
 				obs = append(obs, fmt.Sprintf("G2=%d/%s", code, allowedFromBody(b)))
 			} else {
 				obs = append(obs, "G1=skip", "G2=skip") // a query string cannot express "no subject"; FromURLQuery answers 400 (C18)
 			}
-			code, b := rest(ee.e.read, "POST", "/relation-tuples/check?"+dq, body)
+			code, b := restCtx(ctx, ee.e.read, "POST", "/relation-tuples/check?"+dq, body)
 			obs = append(obs, fmt.Sprintf("P1=%d/%s", code, allowedFromBody(b)))
-			code, b = rest(ee.e.read, "POST", "/relation-tuples/check/openapi?"+dq, body)
+			code, b = restCtx(ctx, ee.e.read, "POST", "/relation-tuples/check/openapi?"+dq, body)
 			obs = append(obs, fmt.Sprintf("P2=%d/%s", code, allowedFromBody(b)))
 			resp, err := client.Check(ctx, &rts.CheckRequest{Tuple: tupleToProto(q), MaxDepth: int32(depth)})
 			a := "-"
@@ -163,14 +176,24 @@ func suiteTransport(t *testing.T, cfg cfgT) {
 			}
 			// confirm by retry: a disagreement that does not persist is counted (stat transient_disagreement) but not reported -
 			// the decision of the engine itself was seen to flip, very rarely, under heavy machine load (DESIGN 8.4)
+			slow := false
 			for try := 0; try < 3; try++ {
 				askSingle()
+				if tslow {
+					slow = true
+					break
+				}
 				if singleAgrees(E, obs) {
 					break
 				}
 				if try < 2 {
 					out.stat("transient_disagreement_candidates")
 				}
+			}
+			if slow {
+				out.stat("slow_skipped")
+				cases++
+				continue
 			}
 			out.emit(fmt.Sprintf("etrans %s %d", fmtTuple(q), depth), "E="+E+" "+strings.Join(obs, " "))
 			out.stat("single.E=" + E)
@@ -235,16 +258,22 @@ func suiteTransport(t *testing.T, cfg cfgT) {
 			n = len(qs)
 			var es, parts []string
 			var restObs, gObs string
+			var bctx context.Context
+			var bcancel context.CancelFunc
+			bslowNow := false
 			askBatch := func() {
+			bctx, bcancel = context.WithTimeout(context.Background(), 15*time.Second)
+			defer func() { bslowNow = bctx.Err() == context.DeadlineExceeded; bcancel() }()
+			ctx := bctx
 			es, parts = nil, nil
 			req := &rts.BatchCheckRequest{MaxDepth: int32(depth)}
 			for _, q := range qs {
-				es = append(es, ee.engineObs(q, depth))
+				es = append(es, ee.engineObsCtx(ctx, q, depth))
 				bb, _ := json.Marshal(q)
 				parts = append(parts, string(bb))
 				req.Tuples = append(req.Tuples, tupleToProto(q))
 			}
-			code, b := rest(ee.e.read, "POST", fmt.Sprintf("/relation-tuples/batch/check?max-depth=%d", depth), []byte(`{"tuples":[`+strings.Join(parts, ",")+`]}`))
+			code, b := restCtx(ctx, ee.e.read, "POST", fmt.Sprintf("/relation-tuples/batch/check?max-depth=%d", depth), []byte(`{"tuples":[`+strings.Join(parts, ",")+`]}`))
 			var rb struct {
 				Results []struct {
 					Allowed bool   `json:"allowed"`
@@ -265,14 +294,24 @@ func suiteTransport(t *testing.T, cfg cfgT) {
 				}
 			}
 			}
+			bslow := false
 			for try := 0; try < 3; try++ {
 				askBatch()
+				if bslowNow {
+					bslow = true
+					break
+				}
 				if batchAgrees(es, restObs) && batchAgrees(es, gObs) {
 					break
 				}
 				if try < 2 {
 					out.stat("transient_disagreement_candidates")
 				}
+			}
+			if bslow {
+				out.stat("slow_skipped")
+				cases++
+				continue
 			}
 			out.emit(fmt.Sprintf("ebatch %d %s", n, strings.Join(es, " ")), restObs+" ; "+gObs)
 			out.stat(fmt.Sprintf("batch.n%d", n))
